@@ -6,13 +6,39 @@
  *                     from the request line; the private `struct stream` is visible because this file
  *                     #includes rtrlib/bgpsec/bgpsec_utils.c (the way the repo's unit tests do)
  *   validate          rtr_bgpsec_validate_as_path against a real spki_table filled from the line
- *   gensig            rtr_bgpsec_generate_signature
+ *   gensig            rtr_bgpsec_generate_signature: gensig D <keyhex> [V <spkihex> <msghex>]
+ *                     reply "<code> <sig_len> <sighex> der-ok|der-bad [v|n|e]" (the last letter: the generated
+ *                     signature verified with plain OpenSSL under <spki> over SHA-256(<msg>)) or "<code> - - -"
  *   validate-nonlri / gensig-nonlri   the same with data->nlri == NULL
  * Independent of rtrlib (plain OpenSSL, never touching rtrlib's layout code):
  *   keygen            fresh P-256 key: private key DER (121 B), SubjectPublicKeyInfo DER (91 B), SKI
  *   sign              ECDSA over SHA-256 of the message bytes GIVEN ON THE LINE (computed by the Lean spec)
  *   verify            ECDSA_verify over SHA-256 of the message bytes given on the line: v / n / e
  *   dercheck          strict DER well-formedness of an ECDSA-Sig-Value
+ * The key table changing DURING a validation (the table is shared with the RTR threads, every lookup takes its lock
+ * separately):
+ *   validate-sched D K E <ne> {<L|A><idx> <nops> {+|-}asn:ski:spki…}*ne [AT … O …]
+ *                     event e = the listed spki_table_add_entry / spki_table_remove_entry calls, performed
+ *                     L<idx>: immediately before the idx-th acquisition (0-based) of the table's lock by the
+ *                             validation call (= between lookup idx-1 and lookup idx), or
+ *                     A<idx>: inside the idx-th lrtr_malloc of the call (allocator hook, lrtr_set_alloc_functions)
+ *                             unless the table's lock is held at that moment (then at the next allocation).
+ *                     Events fire in order.  Reply: "<code> <j_1> … <j_ne>", j_e = number of table lookups of the
+ *                     call that had been made when event e happened ("-": it never happened).  rtrlib's calls of
+ *                     pthread_rwlock_{rdlock,wrlock,unlock} reach the wrappers bgh_* below through -D on the
+ *                     compiler command line (tools/bgpcheck.py), nothing in the library is changed.
+ * Several threads (static state inside the library, C12):
+ *   mt-begin          start recording: every following validate / gensig line is executed as usual AND remembered
+ *                     together with its reply; a gensig line may carry " V <spkihex> <msghex>" (public key and the
+ *                     RFC 8205 octets computed by the Lean spec) for the independent verification of what the
+ *                     threads generate
+ *   mt-defer          like mt-begin, but the calls are only remembered, not executed (the first execution happens
+ *                     inside the threads); each call line is preceded by a line "mt-expect <reply>" giving the
+ *                     reply it must produce
+ *   mt-run <N> <R>    N threads execute the remembered calls R times each, concurrently; every reply must equal
+ *                     the single-threaded one (gensig: same code, and every generated signature must be strict DER
+ *                     and verify with plain OpenSSL under the given key over the given octets).
+ *                     Reply "mt ok" or "mt FAIL <n> first: thread <t> round <r> call <i>: expected … got …"
  *
  * Path description D (all numbers decimal unless "hex"):
  *   <alg> <afi> <safi> <nlri.afi> <nlri_len> <nlrihex|-> <target_as> <np> {pcount:flags:asn}*np <ns> {ski40hex:sig_len:sighex}*ns
@@ -24,7 +50,10 @@
 #include "rtrlib/bgpsec/bgpsec_utils.c"
 #include "rtrlib/spki/hashtable/ht-spkitable_private.h"
 
+#include "rtrlib/lib/alloc_utils_private.h"
+
 #include <ctype.h>
+#include <pthread.h>
 #include <openssl/bn.h>
 #include <openssl/ec.h>
 #include <openssl/ecdsa.h>
@@ -37,8 +66,102 @@
 #include <string.h>
 
 #define MAXTOK 4096
-static char *tok[MAXTOK];
-static int ntok;
+static __thread char *tok[MAXTOK];
+static __thread int ntok;
+
+/* ---- the real lock functions behind the wrappers (the -D renaming applies to this file as well) ---- */
+#undef pthread_rwlock_rdlock
+#undef pthread_rwlock_wrlock
+#undef pthread_rwlock_unlock
+extern int pthread_rwlock_rdlock(pthread_rwlock_t *l);
+extern int pthread_rwlock_wrlock(pthread_rwlock_t *l);
+extern int pthread_rwlock_unlock(pthread_rwlock_t *l);
+
+/* ---- schedule of table changes during one validation call (single-threaded use only) ---- */
+#define MAXEV 8
+#define MAXOPS 16
+struct sched_event {
+	char trig; /* 'L' or 'A' */
+	unsigned long idx;
+	int nops;
+	bool add[MAXOPS];
+	struct spki_record rec[MAXOPS];
+	long fired_at; /* -1: not yet */
+};
+static struct {
+	bool armed;
+	bool in_event;
+	struct spki_table *table;
+	int held; /* table lock held by the calling thread (nesting count) */
+	unsigned long lookups; /* acquisitions of the table's lock by the call so far */
+	unsigned long allocs; /* lrtr_malloc calls of the call so far */
+	int ne, next;
+	struct sched_event ev[MAXEV];
+} sched;
+
+static void sched_fire(char where)
+{
+	if (!sched.armed || sched.in_event || sched.held)
+		return;
+	while (sched.next < sched.ne) {
+		struct sched_event *e = &sched.ev[sched.next];
+
+		if (e->trig != where)
+			return;
+		if (where == 'L' ? sched.lookups < e->idx : sched.allocs < e->idx)
+			return;
+		sched.in_event = true;
+		for (int i = 0; i < e->nops; i++) {
+			if (e->add[i])
+				spki_table_add_entry(sched.table, &e->rec[i]);
+			else
+				spki_table_remove_entry(sched.table, &e->rec[i]);
+		}
+		sched.in_event = false;
+		e->fired_at = (long)sched.lookups;
+		sched.next++;
+	}
+}
+
+int bgh_rdlock(pthread_rwlock_t *l)
+{
+	int rc;
+	bool mine = sched.armed && !sched.in_event && l == &sched.table->lock;
+
+	if (mine)
+		sched_fire('L');
+	rc = pthread_rwlock_rdlock(l);
+	if (mine) {
+		sched.held++;
+		sched.lookups++;
+	}
+	return rc;
+}
+
+int bgh_wrlock(pthread_rwlock_t *l)
+{
+	int rc = pthread_rwlock_wrlock(l);
+
+	if (sched.armed && !sched.in_event && l == &sched.table->lock)
+		sched.held++;
+	return rc;
+}
+
+int bgh_unlock(pthread_rwlock_t *l)
+{
+	if (sched.armed && !sched.in_event && l == &sched.table->lock && sched.held > 0)
+		sched.held--;
+	return pthread_rwlock_unlock(l);
+}
+
+static void *hook_malloc(size_t size)
+{
+	if (sched.armed && !sched.in_event) {
+		sched_fire('A');
+		sched.allocs++;
+	}
+	return malloc(size);
+}
 
 static int hexval(int c)
 {
@@ -75,10 +198,10 @@ static uint8_t *unhex(const char *s, size_t *n)
 	return b;
 }
 
-static void puthex(const uint8_t *b, size_t n)
+static void puthex(FILE *o, const uint8_t *b, size_t n)
 {
 	for (size_t i = 0; i < n; i++)
-		printf("%02x", b[i]);
+		fprintf(o, "%02x", b[i]);
 }
 
 static bool num(const char *s, unsigned long max, unsigned long *out)
@@ -293,6 +416,64 @@ static bool parse_table(int *pos, struct spki_table *t)
 	return true;
 }
 
+/* "asn:ski:spki" -> record; the token is modified */
+static bool parse_record(char *t, struct spki_record *rec)
+{
+	char *parts[3];
+	unsigned long asn;
+	size_t l1 = 0, l2 = 0;
+	uint8_t *ski = NULL, *spki = NULL;
+	bool ok = split(t, ':', parts, 3) == 3 && num(parts[0], 0xffffffffUL, &asn) && (ski = unhex(parts[1], &l1)) &&
+		  l1 == SKI_SIZE && (spki = unhex(parts[2], &l2)) && l2 == SPKI_SIZE;
+
+	if (ok) {
+		memset(rec, 0, sizeof(*rec));
+		rec->asn = (uint32_t)asn;
+		memcpy(rec->ski, ski, SKI_SIZE);
+		memcpy(rec->spki, spki, SPKI_SIZE);
+		rec->socket = NULL;
+	}
+	free(ski);
+	free(spki);
+	return ok;
+}
+
+/* E <ne> {<L|A><idx> <nops> {+|-}asn:ski:spki…}*ne  -> sched.ev */
+static bool parse_events(int *pos)
+{
+	unsigned long ne;
+	int p = *pos;
+
+	if (p + 2 > ntok || strcmp(tok[p], "E") != 0 || !num(tok[p + 1], MAXEV, &ne))
+		return false;
+	p += 2;
+	sched.ne = 0;
+	sched.next = 0;
+	for (unsigned long e = 0; e < ne; e++) {
+		struct sched_event *ev = &sched.ev[e];
+		unsigned long idx, nops;
+
+		if (p + 2 > ntok || (tok[p][0] != 'L' && tok[p][0] != 'A') || !num(tok[p] + 1, 99999, &idx) ||
+		    !num(tok[p + 1], MAXOPS, &nops) || p + 2 + (int)nops > ntok)
+			return false;
+		ev->trig = tok[p][0];
+		ev->idx = idx;
+		ev->nops = (int)nops;
+		ev->fired_at = -1;
+		p += 2;
+		for (unsigned long i = 0; i < nops; i++, p++) {
+			if (tok[p][0] != '+' && tok[p][0] != '-')
+				return false;
+			ev->add[i] = tok[p][0] == '+';
+			if (!parse_record(tok[p] + 1, &ev->rec[i]))
+				return false;
+		}
+	}
+	sched.ne = (int)ne;
+	*pos = p;
+	return true;
+}
+
 static EC_KEY *load_priv(const uint8_t *der, size_t len)
 {
 	const unsigned char *p = der;
@@ -354,19 +535,18 @@ static bool der_ok(const uint8_t *b, size_t n)
 	return 2 + u1 + u2 == n;
 }
 
-int main(void)
+/* executes one request line (destroyed by tokenising), writes exactly one reply line to o */
+static void exec_line(char *line, FILE *o)
 {
-	char *line = NULL;
-	size_t cap = 0;
+	char *save = NULL;
 
-	while (getline(&line, &cap, stdin) > 0) {
+	{
 		ntok = 0;
-		for (char *s = strtok(line, " \t\r\n"); s && ntok < MAXTOK; s = strtok(NULL, " \t\r\n"))
+		for (char *s = strtok_r(line, " \t\r\n", &save); s && ntok < MAXTOK; s = strtok_r(NULL, " \t\r\n", &save))
 			tok[ntok++] = s;
 		if (ntok == 0) {
-			puts("bad-op");
-			fflush(stdout);
-			continue;
+			fputs("bad-op" "\n", o);
+			return;
 		}
 		if ((strcmp(tok[0], "size") == 0 || strcmp(tok[0], "align") == 0) && ntok >= 2 &&
 		    (strcmp(tok[1], "V") == 0 || strcmp(tok[1], "S") == 0)) {
@@ -378,18 +558,18 @@ int main(void)
 				/* align_byte_sequence(VALIDATION) dereferences data->sigs: outside its contract */
 				if (d)
 					rtr_bgpsec_free(d);
-				puts("bad-op");
+				fputs("bad-op" "\n", o);
 			} else if (tok[0][0] == 's') {
-				printf("%zu\n", req_stream_size(d, ty));
+				fprintf(o, "%zu\n", req_stream_size(d, ty));
 				rtr_bgpsec_free(d);
 			} else {
 				size_t sz = req_stream_size(d, ty);
 				struct stream *s = init_stream(sz);
 				int rc = align_byte_sequence(d, s, ty);
 
-				printf("%s %zu %u ", rcname(rc), sz, (unsigned int)s->w_head);
-				puthex(get_stream_start(s), get_stream_size(s));
-				printf("\n");
+				fprintf(o, "%s %zu %u ", rcname(rc), sz, (unsigned int)s->w_head);
+				puthex(o, get_stream_start(s), get_stream_size(s));
+				fprintf(o, "\n");
 				free_stream(s);
 				rtr_bgpsec_free(d);
 			}
@@ -404,15 +584,51 @@ int main(void)
 			}
 
 			if (!d) {
-				puts("bad-op");
+				fputs("bad-op" "\n", o);
 			} else if (!parse_table(&pos, &t)) {
 				rtr_bgpsec_free(d);
-				puts("bad-op");
+				fputs("bad-op" "\n", o);
 			} else {
 				/* anything after the table (the model's oracle part "O ...") is ignored here */
 				int rc = rtr_bgpsec_validate_as_path(d, &t);
 
-				printf("%s\n", rcname(rc));
+				fprintf(o, "%s\n", rcname(rc));
+				spki_table_free(&t);
+				rtr_bgpsec_free(d);
+			}
+		} else if (strcmp(tok[0], "validate-sched") == 0) {
+			int pos = 1;
+			struct rtr_bgpsec *d = parse_data(&pos);
+			struct spki_table t;
+
+			if (!d) {
+				fputs("bad-op\n", o);
+			} else if (!parse_table(&pos, &t)) {
+				rtr_bgpsec_free(d);
+				fputs("bad-op\n", o);
+			} else if (!parse_events(&pos)) {
+				spki_table_free(&t);
+				rtr_bgpsec_free(d);
+				fputs("bad-op\n", o);
+			} else {
+				int rc;
+
+				sched.table = &t;
+				sched.held = 0;
+				sched.lookups = 0;
+				sched.allocs = 0;
+				sched.in_event = false;
+				sched.armed = true;
+				rc = rtr_bgpsec_validate_as_path(d, &t);
+				sched.armed = false;
+				fprintf(o, "%s", rcname(rc));
+				for (int e = 0; e < sched.ne; e++) {
+					if (sched.ev[e].fired_at < 0)
+						fprintf(o, " -");
+					else
+						fprintf(o, " %ld", sched.ev[e].fired_at);
+				}
+				fprintf(o, "\n");
 				spki_table_free(&t);
 				rtr_bgpsec_free(d);
 			}
@@ -431,7 +647,7 @@ int main(void)
 				if (d)
 					rtr_bgpsec_free(d);
 				free(key);
-				puts("bad-op");
+				fputs("bad-op" "\n", o);
 			} else {
 				/* load_private_key reads up to PRIVATE_KEY_LENGTH bytes: give it a full buffer */
 				uint8_t kb[PRIVATE_KEY_LENGTH + 8];
@@ -441,15 +657,29 @@ int main(void)
 				memset(kb, 0, sizeof(kb));
 				memcpy(kb, key, kl < PRIVATE_KEY_LENGTH ? kl : PRIVATE_KEY_LENGTH);
 				rc = rtr_bgpsec_generate_signature(d, kb, &ns);
-				printf("%s ", rcname(rc));
+				fprintf(o, "%s ", rcname(rc));
 				if (ns && rc == RTR_BGPSEC_SUCCESS) {
-					printf("%u ", ns->sig_len);
-					puthex(ns->signature, ns->sig_len);
-					printf(" %s", der_ok(ns->signature, ns->sig_len) ? "der-ok" : "der-bad");
+					fprintf(o, "%u ", ns->sig_len);
+					puthex(o, ns->signature, ns->sig_len);
+					fprintf(o, " %s", der_ok(ns->signature, ns->sig_len) ? "der-ok" : "der-bad");
+					/* " V <spki> <msg>" after the key: verify what was generated with plain OpenSSL
+					 * under THAT public key over SHA-256 of THOSE octets (computed by the Lean spec) */
+					if (pos + 3 < ntok && strcmp(tok[pos + 1], "V") == 0) {
+						size_t pl = 0, ml = 0;
+						uint8_t *pk = unhex(tok[pos + 2], &pl), *msg = unhex(tok[pos + 3], &ml);
+
+						if (pk && msg)
+							fprintf(o, " %c",
+								verify_raw(pk, pl, msg, ml, ns->signature, ns->sig_len));
+						else
+							fprintf(o, " ?");
+						free(pk);
+						free(msg);
+					}
 				} else {
-					printf("- - -");
+					fprintf(o, "- - -");
 				}
-				printf("\n");
+				fprintf(o, "\n");
 				if (ns && rc != RTR_BGPSEC_SIGNING_ERROR)
 					rtr_bgpsec_free_signatures(ns);
 				free(key);
@@ -468,13 +698,13 @@ int main(void)
 			EC_POINT_point2oct(EC_KEY_get0_group(k), EC_KEY_get0_public_key(k), POINT_CONVERSION_UNCOMPRESSED, pt,
 					   sizeof(pt), NULL);
 			SHA1(pt, sizeof(pt), ski); /* RFC 6487 4.8.2: SHA-1 of the subjectPublicKey bit string */
-			printf("key ");
-			puthex(priv, (size_t)pl);
-			printf(" ");
-			puthex(pub, (size_t)ul);
-			printf(" ");
-			puthex(ski, sizeof(ski));
-			printf("\n");
+			fprintf(o, "key ");
+			puthex(o, priv, (size_t)pl);
+			fprintf(o, " ");
+			puthex(o, pub, (size_t)ul);
+			fprintf(o, " ");
+			puthex(o, ski, sizeof(ski));
+			fprintf(o, "\n");
 			OPENSSL_free(priv);
 			OPENSSL_free(pub);
 			EC_KEY_free(k);
@@ -484,18 +714,18 @@ int main(void)
 			EC_KEY *k = key && msg ? load_priv(key, kl) : NULL;
 
 			if (!k) {
-				puts("bad-op");
+				fputs("bad-op" "\n", o);
 			} else {
 				unsigned char md[SHA256_DIGEST_LENGTH], sig[128];
 				unsigned int sl = 0;
 
 				SHA256(msg, ml, md);
 				if (ECDSA_sign(0, md, SHA256_DIGEST_LENGTH, sig, &sl, k) != 1) {
-					puts("sign-failed");
+					fputs("sign-failed" "\n", o);
 				} else {
-					printf("sig ");
-					puthex(sig, sl);
-					printf("\n");
+					fprintf(o, "sig ");
+					puthex(o, sig, sl);
+					fprintf(o, "\n");
 				}
 				EC_KEY_free(k);
 			}
@@ -506,9 +736,9 @@ int main(void)
 			uint8_t *spki = unhex(tok[1], &kl), *msg = unhex(tok[2], &ml), *sig = unhex(tok[3], &sl);
 
 			if (!spki || !msg || !sig)
-				puts("bad-op");
+				fputs("bad-op" "\n", o);
 			else
-				printf("%c\n", verify_raw(spki, kl, msg, ml, sig, sl));
+				fprintf(o, "%c\n", verify_raw(spki, kl, msg, ml, sig, sl));
 			free(spki);
 			free(msg);
 			free(sig);
@@ -517,12 +747,178 @@ int main(void)
 			uint8_t *sig = unhex(tok[1], &sl);
 
 			if (!sig)
-				puts("bad-op");
+				fputs("bad-op" "\n", o);
 			else
-				puts(der_ok(sig, sl) ? "der-ok" : "der-bad");
+				fputs(der_ok(sig, sl) ? "der-ok\n" : "der-bad\n", o);
 			free(sig);
 		} else {
-			puts("bad-op");
+			fputs("bad-op" "\n", o);
+		}
+	}
+}
+
+
+/* ---------------- several threads execute the same calls ---------------- */
+struct mt_call {
+	char *line; /* request line as received */
+	char *reply; /* single-threaded reply (one line, no newline) */
+};
+static struct mt_call *mt_calls;
+static size_t mt_n, mt_cap;
+static bool mt_recording, mt_deferred;
+static char *mt_pending;
+
+static struct {
+	pthread_mutex_t mu;
+	unsigned long fails;
+	char first[600];
+	int rounds;
+	pthread_barrier_t start;
+} mt;
+
+static char *run_to_string(const char *line)
+{
+	char *copy = strdup(line), *buf = NULL;
+	size_t len = 0;
+	FILE *o = open_memstream(&buf, &len);
+
+	exec_line(copy, o);
+	fclose(o);
+	free(copy);
+	if (len && buf[len - 1] == '\n')
+		buf[len - 1] = 0;
+	return buf;
+}
+
+static void mt_record(const char *line, const char *reply)
+{
+	struct mt_call *c;
+
+	if (mt_n == mt_cap) {
+		mt_cap = mt_cap ? 2 * mt_cap : 64;
+		mt_calls = realloc(mt_calls, mt_cap * sizeof(*mt_calls));
+	}
+	c = &mt_calls[mt_n++];
+	memset(c, 0, sizeof(*c));
+	c->line = strdup(line);
+	c->reply = strdup(reply);
+	c->reply[strcspn(c->reply, "\r\n")] = 0;
+}
+
+static void mt_fail(int t, int r, size_t i, const char *exp, const char *got, const char *why)
+{
+	pthread_mutex_lock(&mt.mu);
+	if (!mt.fails)
+		snprintf(mt.first, sizeof(mt.first), "thread %d round %d call %zu: %s: expected %.160s got %.160s", t, r, i, why,
+			 exp, got);
+	mt.fails++;
+	pthread_mutex_unlock(&mt.mu);
+}
+
+static void *mt_thread(void *arg)
+{
+	int t = (int)(intptr_t)arg;
+
+	pthread_barrier_wait(&mt.start);
+	for (int r = 0; r < mt.rounds; r++) {
+		for (size_t k = 0; k < mt_n; k++) {
+			/* threads walk the list at different phases, so that different calls overlap */
+			size_t i = (k + (size_t)t * 7) % mt_n;
+			struct mt_call *c = &mt_calls[i];
+			char *got = run_to_string(c->line);
+
+			if (strncmp(c->line, "gensig", 6) == 0) {
+				/* signatures are randomised: same code, strict DER, verifies (letter appended by exec_line) */
+				size_t el = strcspn(c->reply, " "), gl = strcspn(got, " ");
+
+				if (el != gl || strncmp(c->reply, got, el) != 0) {
+					mt_fail(t, r, i, c->reply, got, "return code differs from the single-threaded call");
+				} else if (strncmp(got, "SUCCESS", 7) == 0) {
+					size_t n = strlen(got);
+
+					if (!strstr(got, " der-ok"))
+						mt_fail(t, r, i, "a strict DER ECDSA-Sig-Value", got, "generated signature malformed");
+					else if (strstr(c->line, " V ") && !(n > 2 && got[n - 1] == 'v' && got[n - 2] == ' '))
+						mt_fail(t, r, i, "v", got,
+							"generated signature does not verify (plain OpenSSL, SHA-256 of the RFC 8205 octets of the Lean spec, matching public key)");
+				}
+			} else if (strcmp(got, c->reply) != 0) {
+				mt_fail(t, r, i, c->reply, got, "reply differs from the single-threaded call");
+			}
+			free(got);
+		}
+	}
+	return NULL;
+}
+
+static void mt_run(int nthreads, int rounds, FILE *o)
+{
+	pthread_t th[16];
+
+	mt.fails = 0;
+	mt.first[0] = 0;
+	mt.rounds = rounds;
+	pthread_mutex_init(&mt.mu, NULL);
+	pthread_barrier_init(&mt.start, NULL, (unsigned int)nthreads);
+	for (int t = 0; t < nthreads; t++)
+		pthread_create(&th[t], NULL, mt_thread, (void *)(intptr_t)t);
+	for (int t = 0; t < nthreads; t++)
+		pthread_join(th[t], NULL);
+	pthread_barrier_destroy(&mt.start);
+	if (mt.fails)
+		fprintf(o, "mt FAIL %lu first: %s\n", mt.fails, mt.first);
+	else
+		fprintf(o, "mt ok\n");
+}
+
+int main(void)
+{
+	char *line = NULL;
+	size_t cap = 0;
+
+	lrtr_set_alloc_functions(hook_malloc, realloc, free);
+	while (getline(&line, &cap, stdin) > 0) {
+		unsigned long n, r;
+		char w0[32] = "", w1[32] = "", w2[32] = "";
+		int nw = sscanf(line, "%31s %31s %31s", w0, w1, w2);
+
+		if (nw >= 1 && strcmp(w0, "mt-begin") == 0 && nw == 1) {
+			for (size_t i = 0; i < mt_n; i++) {
+				free(mt_calls[i].line);
+				free(mt_calls[i].reply);
+			}
+			mt_n = 0;
+			mt_recording = true;
+			mt_deferred = false;
+			puts("mt-begin");
+		} else if (nw >= 1 && strcmp(w0, "mt-defer") == 0 && nw == 1) {
+			mt_n = 0; /* (a list recorded before is dropped without being freed: once per process) */
+			mt_recording = true;
+			mt_deferred = true;
+			puts("mt-defer");
+		} else if (mt_deferred && mt_recording && strncmp(line, "mt-expect ", 10) == 0) {
+			free(mt_pending);
+			mt_pending = strdup(line + 10);
+			puts("ok");
+		} else if (mt_deferred && mt_recording && mt_pending &&
+			   (strncmp(line, "gensig ", 7) == 0 || strncmp(line, "validate ", 9) == 0)) {
+			mt_record(line, mt_pending);
+			free(mt_pending);
+			mt_pending = NULL;
+			puts("recorded");
+		} else if (nw == 3 && strcmp(w0, "mt-run") == 0 && num(w1, 16, &n) && n >= 1 && num(w2, 100000, &r)) {
+			mt_recording = false;
+			if (mt_n == 0)
+				puts("bad-op");
+			else
+				mt_run((int)n, (int)r, stdout);
+		} else {
+			char *reply = run_to_string(line);
+
+			puts(reply);
+			if (mt_recording && (strncmp(line, "gensig ", 7) == 0 || strncmp(line, "validate ", 9) == 0))
+				mt_record(line, reply);
+			free(reply);
 		}
 		fflush(stdout);
 	}
